@@ -250,7 +250,7 @@ impl<A: Send + 'static> Cell<A> {
         A: Clone,
         B: Clone,
     {
-        let self_ = self.clone();
+        let self_ = self.sample_lazy();
         let f_deps = lambda1_deps(&f);
         let f = Arc::new(Mutex::new(f));
         let init;
@@ -258,7 +258,7 @@ impl<A: Send + 'static> Cell<A> {
             let f = f.clone();
             init = Lazy::new(move || {
                 let mut f = f.lock();
-                f.call(&self_.sample())
+                f.call(&self_.run())
             });
         }
         self.updates()
